@@ -54,16 +54,63 @@ class FakeFile:
 _CONV: dict = {}
 
 
+def _decimal_lang():
+    """Decimal literals as they occur in the tables: sign, digits with optional fraction, optional exponent."""
+    import z3
+
+    d = z3.Range('0', '9')
+    sign = z3.Option(z3.Union(z3.Re(z3.StringVal('+')), z3.Re(z3.StringVal('-'))))
+    mant = z3.Union(z3.Concat(z3.Plus(d), z3.Option(z3.Concat(z3.Re(z3.StringVal('.')), z3.Star(d)))), z3.Concat(z3.Re(z3.StringVal('.')), z3.Plus(d)))
+    exp = z3.Option(z3.Concat(z3.Union(z3.Re(z3.StringVal('e')), z3.Re(z3.StringVal('E'))), sign, z3.Plus(d)))
+    return z3.Concat(sign, mant, exp)
+
+
+def _pyfloat_lang():
+    """What float() accepts (digit-group underscores not modelled): white space, decimal literal or inf/nan, white space."""
+    import z3
+    from symex.symstr import _WS, _ci
+
+    sign = z3.Option(z3.Union(z3.Re(z3.StringVal('+')), z3.Re(z3.StringVal('-'))))
+    special = z3.Concat(sign, z3.Union(_ci('inf'), _ci('infinity'), _ci('nan')))
+    ws = z3.Star(_WS())
+    return z3.Concat(ws, z3.Union(_decimal_lang(), special), ws)
+
+
+def cell_language(s):
+    """Assumption on table cells: blank or a decimal literal (optionally with exponent), no white space."""
+    import z3
+    from symex import core as C
+
+    return C.B('z3', z3.InRe(s.z, z3.Union(z3.Re(z3.StringVal('')), _decimal_lang())))
+
+
 def symfloat(s=0.0):
+    import z3
     from symex import core as C
     from symex.symstr import SymStr
 
     if isinstance(s, SymStr):
-        k = ('float', s.idx)
+        if getattr(s, 'z', None) is None:
+            raise C.Unsupported('float() of a derived symbolic string')
+        if not bool(C.B('z3', z3.InRe(s.z, _pyfloat_lang()))):
+            raise ValueError(f'could not convert string to float: {s.sname}')
+        root = getattr(s, 'root', s)  # float() ignores surrounding white space: strip() does not change the value
+        k = ('float', root.idx)
         if k not in _CONV:
-            _CONV[k] = C.sym_var(f'float({s.sname})')
+            _CONV[k] = C.sym_var(f'float({root.sname})')
         return _CONV[k]
     return builtins.float(s)
+
+
+def floatvar(s):
+    """The uninterpreted value float(<field>) without going through the acceptance test (oracle side)."""
+    from symex import core as C
+
+    root = getattr(s, 'root', s)
+    k = ('float', root.idx)
+    if k not in _CONV:
+        _CONV[k] = C.sym_var(f'float({root.sname})')
+    return _CONV[k]
 
 
 def symint(s=0, *a):
@@ -78,43 +125,36 @@ def symint(s=0, *a):
     return builtins.int(s, *a)
 
 
-class SymRe:
-    """re stand-in for _parse_isotope_name on symbolic names: match(r'(?:\\d+)?([a-zA-Z]+)', name)."""
+def _isotope_match(string):
+    """re.match(r'(?:\\d+)?([a-zA-Z]+)', name) with the capture group reconstructed: digits* letters+ rest, maximal letters."""
+    import z3
+    from symex import core as C
+    from symex.symstr import SymStr
 
-    def __getattr__(self, name):
-        import re
+    digits = z3.Star(z3.Range('0', '9'))
+    letter = z3.Union(z3.Range('a', 'z'), z3.Range('A', 'Z'))
+    letters = z3.Plus(letter)
+    ok = C.B('z3', z3.InRe(string.z, z3.Concat(digits, letters, z3.Full(z3.ReSort(z3.StringSort())))))
+    if not bool(ok):
+        return None
+    elem = SymStr(f'element({string.sname})')
+    d = z3.String(f'digits!{elem.idx}')
+    rest = z3.String(f'rest!{elem.idx}')
+    nonletter_start = z3.Or(z3.Length(rest) == 0, z3.Not(z3.InRe(z3.SubString(rest, 0, 1), letter)))
+    C.CTX.pc.append(C.B('z3', z3.And(string.z == z3.Concat(d, elem.z, rest), z3.InRe(d, digits), z3.InRe(elem.z, letters), nonletter_start)))
 
-        return getattr(re, name)
+    class M:
+        def __getitem__(self, i):
+            assert i == 1
+            return elem
 
-    def match(self, pattern, string, *a):
-        import re
+    return M()
 
-        import z3
-        from symex import core as C
-        from symex.symstr import SymStr
 
-        if not isinstance(string, SymStr):
-            return re.match(pattern, string, *a)
-        if pattern != r'(?:\d+)?([a-zA-Z]+)':
-            raise C.Unsupported(f'regex {pattern!r} on a symbolic string')
-        digits = z3.Star(z3.Range('0', '9'))
-        letter = z3.Union(z3.Range('a', 'z'), z3.Range('A', 'Z'))
-        letters = z3.Plus(letter)
-        ok = C.B('z3', z3.InRe(string.z, z3.Concat(digits, letters, z3.Full(z3.ReSort(z3.StringSort())))))
-        if not bool(ok):
-            return None
-        elem = SymStr(f'element({string.sname})')
-        d = z3.String(f'digits!{elem.idx}')
-        rest = z3.String(f'rest!{elem.idx}')
-        nonletter_start = z3.Or(z3.Length(rest) == 0, z3.Not(z3.InRe(z3.SubString(rest, 0, 1), letter)))
-        C.CTX.pc.append(C.B('z3', z3.And(string.z == z3.Concat(d, elem.z, rest), z3.InRe(d, digits), z3.InRe(elem.z, letters), nonletter_start)))
+def SymRe():
+    from symex.symre import SymReModule
 
-        class M:
-            def __getitem__(self, i):
-                assert i == 1
-                return elem
-
-        return M()
+    return SymReModule(special={('match', r'(?:\d+)?([a-zA-Z]+)'): _isotope_match})
 
 
 def _load():
@@ -127,6 +167,20 @@ def _load():
     atoms.re = SymRe()
     mat = loader.load('absorption.material')
     return sc, atoms, mat
+
+
+def _cells(C, pc, extra):
+    """Concrete cell texts of a counterexample (z3 string model)."""
+    import z3
+
+    m = C.solve([*C.CTX.assumptions, *pc, *extra])
+    out = {}
+    if m.status == 'sat':
+        zm = m.solver.model()
+        for d in zm.decls():
+            if d.name() in ('value', 'std'):
+                out[d.name()] = zm[d].as_string()
+    return out
 
 
 def job_row(j, seed):
@@ -149,7 +203,11 @@ def job_row(j, seed):
         fields = []
         for k in range(8):
             if k == kattr:
-                fields += [SymStr('value'), SymStr('std')]
+                fv_, fs_ = SymStr('value'), SymStr('std')
+                # table cells: blank or a decimal literal, possibly with exponent (assumption on the data files)
+                C.CTX.pc.append(cell_language(fv_))
+                C.CTX.pc.append(cell_language(fs_))
+                fields += [fv_, fs_]
             else:
                 fields += ['1.5', ''] if k % 2 else ['', '']
         sp = atoms.ScatteringParams._parse_line('X', SymLine(fields))
@@ -160,7 +218,7 @@ def job_row(j, seed):
         if p.exc is not None or p.inconclusive:
             obs.append({'name': f'row[{name}]:path{k}', 'status': 'inconclusive' if p.inconclusive else 'violated', 'detail': str(p.inconclusive or repr(p.exc))[:200], 't': 0})
             if p.exc is not None:
-                cands.append(('C20:row:raises', case, repr(p.exc)[:100]))
+                cands.append(('C20:row:raises', {**case, 'cells': _cells(C, p.pc, [])}, repr(p.exc)[:100]))
             continue
         sp, fv, fs = p.value
         import z3
@@ -168,17 +226,19 @@ def job_row(j, seed):
         empty_s = C.B('z3', z3.Length(fs.z) == 0)
         got = getattr(sp, name)
         if got is None:
+            ob_goal = empty_v
             ob = C.prove(f'row[{name}]:path{k}:None <=> blank value field', empty_v, pc=p.pc)
         else:
-            good = C.B.const(got.unit == sc.Unit(unit)) & ~empty_v & (got.value == symfloat(fv))
+            good = C.B.const(got.unit == sc.Unit(unit)) & ~empty_v & (got.value == floatvar(fv))
             if got.variance is None:
                 good = good & empty_s
             else:
-                good = good & ~empty_s & (got.variance == symfloat(fs) * symfloat(fs))
+                good = good & ~empty_s & (got.variance == floatvar(fs) * floatvar(fs))
+            ob_goal = good
             ob = C.prove(f'row[{name}]:path{k}:value = field {2 * kattr}, variance = field {2 * kattr + 1} squared, unit {unit}', good, pc=p.pc)
         obs.append(ob_dict(ob))
         if ob.status == 'violated':
-            cands.append(('C20:row', case, f'{name} not taken verbatim from its columns'))
+            cands.append(('C20:row', {**case, 'cells': _cells(C, p.pc, [~ob_goal])}, f'{name} not taken verbatim from its columns'))
         # the other attributes come from their own (concrete) columns
         okc = True
         for k2, (n2, u2) in enumerate(ATTRS):
@@ -268,6 +328,8 @@ def job_atom(j, seed):
         iso = SymStr('isoname')
         zf, wf, ef = SymStr('zfield'), SymStr('wfield'), SymStr('werr')
         mf, me = SymStr('mfield'), SymStr('merr')
+        for fld in (wf, ef, mf, me):
+            C.CTX.pc.append(cell_language(fld))
         # header lines look like data lines with a matching name: they must be skipped, not matched
         files['atomic_weights.csv'] = lambda: FakeFile([SymLine([q, '999', '9', '9']), SymLine([en, '998', '8', '8']), SymLine([en, zf, wf, ef])])
         files['atomic_masses.csv'] = lambda: FakeFile([SymLine([q, '7', '7']), SymLine([q, '6', '6']), SymLine([iso, mf, me])])
@@ -294,7 +356,7 @@ def job_atom(j, seed):
         if ob.status == 'violated':
             cands.append(('C20:atom:z', case, 'atomic number not from the element row'))
         if a._atomic_weight is not None:
-            ob = C.prove(f'atom:path{k}:weight verbatim [Da]', (a._atomic_weight.value == symfloat(wf)) & C.B.const(a._atomic_weight.unit == sc.Unit('Da')), pc=p.pc)
+            ob = C.prove(f'atom:path{k}:weight verbatim [Da]', (a._atomic_weight.value == floatvar(wf)) & C.B.const(a._atomic_weight.unit == sc.Unit('Da')), pc=p.pc)
             obs.append(ob_dict(ob))
             if ob.status == 'violated':
                 cands.append(('C20:atom:weight', case, 'weight'))
@@ -304,7 +366,7 @@ def job_atom(j, seed):
             goal = C.any_of([C.B('z3', s.z == q.z) for s in elem_atoms]) | C.B('z3', z3.Length(mf.z) == 0)
             ob = C.prove(f'atom:path{k}:no mass => element name (or blank table entry)', goal, pc=p.pc)
         else:
-            goal = (a._atomic_mass.value == symfloat(mf)) & C.B('z3', iso.z == q.z) & C.B.const(a._atomic_mass.unit == sc.Unit('Da'))
+            goal = (a._atomic_mass.value == floatvar(mf)) & C.B('z3', iso.z == q.z) & C.B.const(a._atomic_mass.unit == sc.Unit('Da'))
             ob = C.prove(f'atom:path{k}:mass verbatim from the row whose name equals the query (header rows skipped)', goal, pc=p.pc)
         obs.append(ob_dict(ob))
         if ob.status == 'violated':
@@ -357,6 +419,11 @@ def run(chk):
     chk.functions = loader.describe([atoms.ScatteringParams._parse_line, atoms._assemble_scalar, atoms._find_line_with_isotope, atoms._load_atomic_weight,
                                      atoms._load_atomic_mass, atoms._parse_isotope_name, atoms.Atom.for_isotope.__wrapped__, atoms.reference_wavelength,
                                      mat.Material.attenuation_coefficient])
+    from symex import symre
+    nval, mism = symre.self_test()
+    chk.traces_validated += nval
+    if mism:
+        chk.harness_error(f'regex translator disagrees with Python re: {mism[:3]}')
     run_jobs(chk, job_row, list(range(8)))
     run_jobs(chk, job_lookup, [1, 2, 3])
     run_jobs(chk, job_atom, [0])
@@ -382,10 +449,11 @@ def run(chk):
         chk.harness_error('table enumeration failed: ' + out[-300:])
     chk.bounds = {'generic row': 'one attribute pair symbolic at a time (fields as z3 strings), others concrete', 'lookup': 'tables of 1..3 rows with symbolic names and a symbolic query',
                   'tables': 'every row (thorough) / every 7th row (quick) of the three bundled files enumerated through the real lookups'}
-    chk.stubs = ['float()/int() of a field -> uninterpreted value per field', 're.match of the isotope pattern -> z3 regex decomposition (digits* letters+ rest, maximal letters)',
+    chk.stubs = ['float() of a field -> accepted iff the text is in the language of Python float literals (no digit-group underscores), value = uninterpreted real per field, unchanged by strip(); int() -> uninterpreted integer per field',
+                 're.compile/match/fullmatch/search -> z3 regular expressions translated from the pattern by symex.symre (validated against Python re on sample strings)', 're.match of the isotope pattern -> z3 regex decomposition (digits* letters+ rest, maximal letters)',
                  'bundled files -> fake files of symbolic lines (header lines made to look like matching data lines)']
     chk.axioms = []
-    chk.assumptions = ['fields contain no comma or newline', 'enumeration of the real tables is validation (exhaustive in thorough), not a solver result']
+    chk.assumptions = ['table cells are blank or decimal literals [+-]digits[.digits][e[+-]digits] without white space', 'fields contain no comma or newline', 'enumeration of the real tables is validation (exhaustive in thorough), not a solver result']
 
 
 def replay_real(case):
@@ -399,6 +467,32 @@ def replay_real(case):
     bad = []
     kind = case['kind']
     base = importlib.resources.files('scippneutron.atoms')
+    if kind == 'row' and case.get('cells') is not None:
+        from decimal import Decimal
+
+        k = case['attr']
+        attr, unit = ATTRS[k]
+        cv, cs = case['cells'].get('value', ''), case['cells'].get('std', '')
+        fields = []
+        for q in range(8):
+            fields += [cv, cs] if q == k else (['1.5', ''] if q % 2 else ['', ''])
+        line = ','.join(fields) + '\n'
+        try:
+            sp = atoms.ScatteringParams._parse_line('X', line)
+            got = getattr(sp, attr)
+            if not cv:
+                if got is not None:
+                    bad.append(f'blank cell gives {got}')
+            elif got is None:
+                bad.append(f'cell {cv!r} ({attr}) is returned as None although the table has a value there')
+            else:
+                ev = float(Decimal(cv))
+                es = float(Decimal(cs)) ** 2 if cs else None
+                if got.value != ev or got.unit != sc.Unit(unit) or (got.variance is None) != (es is None) or (es is not None and got.variance != es):
+                    bad.append(f'cells ({cv!r}, {cs!r}) give {got.value} +- var {got.variance} [{got.unit}], expected {ev} +- var {es} [{unit}]')
+        except Exception as e:  # noqa: BLE001
+            bad.append(f'cells ({cv!r}, {cs!r}): {type(e).__name__}: {e}')
+        return {'reproduced': bool(bad), 'detail': '; '.join(bad[:2])}
     if kind in ('tables', 'row', 'lookup', 'atom'):
         stride = case.get('stride', 11)
         rows = 0
